@@ -442,7 +442,14 @@ def penalize(A: spmatrix,
 
     d = Aout.diagonal()
     if epsilon is None:
-        epsilon = 1e-10 / np.linalg.norm(d[D], np.inf).astype(float)
+        # scale by the penalized diagonal entries; if they all are zero, e.g.,
+        # in a saddle point system, by the largest entry of the matrix
+        scale = np.linalg.norm(d[D], np.inf)
+        if scale == 0. and Aout.data.size > 0:
+            scale = np.linalg.norm(Aout.data, np.inf)
+        if scale == 0.:
+            scale = 1.
+        epsilon = 1e-10 / float(scale)
     d[D] = 1. / epsilon
     Aout.setdiag(d)
 
